@@ -912,6 +912,8 @@ func Main(types []TypeInfo) {
 			d.FamReaders(*nrand, *G, *iters)
 		case "dispatch":
 			d.FamDispatch(*nrand, *G)
+		case "plainhist":
+			d.FamPlainHist(*nrand)
 		case "ext":
 			d.FamExt(*scripts, *maxScripts)
 		case "extval":
